@@ -589,6 +589,9 @@ def long_sequences(spec, cfg, tier, seed):
         b = mod.bits_per_symbol
         nsym = rng.choice([5, 17, 64, 257]) if tier == "quick" else rng.choice([5, 17, 64, 257, 1000])
         lead = () if k % 2 == 0 else (rng.choice([1, 2, 3]),)
+        if k == nseq - 1 and cfg[0] in MEMLESS:
+            # one very long BATCHED row per scheme: beyond any internal block size (4096, 8192 symbols), two rows
+            nsym, lead = 8300, (2,)
         g = torch.Generator().manual_seed(rng.getrandbits(40))
         bits = torch.randint(0, 2, lead + (nsym * b,), generator=g).float()
         try:
